@@ -21,6 +21,21 @@ checks = {
    text=WHOLE + "decided is the printer's own precedence knowledge, which only programmatic trees exercise and no test reaches: the printer-side precedence function equals the parser's binding-power table for every token constant; each expression node reports the level at which the parser produces it; every operand of an operator printer is parenthesised by a pure level comparison that is exhaustively evaluated over all orderings against the associativity-aware requirement, balanced and enclosing the operand. Round-trip shape equality itself is not decided.",
    ref="DESIGN.md §3 C03",
    note="Trusted: go/types, go/ssa, the folder (comparisons/constant returns only; anything else is reported unresolved). Token fusion (R3.4) and token order (R3.5) are reported under this id once armed."),
+ "C13": dict(
+   technique="SSA non-interference: flag anchored by option-flow from the builder setter; every read must be a branch condition whose flag-false edge records an error before any return/advance (tolerant), or gates only the documented '(' / '[' after-newline cut (smart semicolons)",
+   text=WHOLE + "decided is a non-interference argument over every path of package parser: the two mode flags flow uncrossed from their setters into one parser field each; the tolerant flag is only ever a branch condition whose false edge records an error first, so a parse that records no error took no flag-dependent branch (strict = tolerant on strict-accepted programs); the smart-semicolon flag gates only cuts requiring the after-newline flag and a peek type in {(, [}, returning the left operand and consuming nothing. The positive clause (tolerant keeps every complete statement) and tree equality as data are not decided.",
+   ref="DESIGN.md §3 C13",
+   note="Trusted: go/types, go/ssa, recognition of the condition atoms (peek/current token type tests, after-newline flag, parser bool fields); unknown shapes fail closed."),
+ "C11": dict(
+   technique="SSA path rules with verified interprocedural summaries (may-return-nil, nil-implies-error, false-implies-error); who-may-write / who-may-construct rules for the error list",
+   text=WHOLE + "decided is the error-contract discipline on every path of package parser: no may-be-nil node pointer is converted to an ast interface without a nil test (the typed-nil defect this rule found is repaired by a fix: commit); every nil-valued return of a node is preceded by a recorded error (summaries verified bottom-up, not assumed); ParseProgram returns an error exactly on the non-empty-list branch and never a nil program; only the constructor and the single error constructor write the error list; error ranges are {tok.Start, tok.End} of the parser's current/peek token. Termination and panic-freedom for all inputs are not claimed beyond these obligations.",
+   ref="DESIGN.md §3 C11",
+   note="Trusted: go/types, go/ssa. Plugin-supplied function values are assumed non-nil and outside the program. R11.3/R11.5/R11.6 are reported under this id once armed."),
+ "C12": dict(
+   technique="SSA path enumeration with condition atoms over the separator check, the block parser and the prefix dispatcher (accept-path justification, must-pass-through)",
+   text=WHOLE + "decided are the detectors strict mode relies on, for every path: the separator check accepts only on ';' consumed, '}'/EOF at peek, peek after a line break, or tolerant mode, and every semicolon-terminated statement parser passes it before returning its node; the block parser never returns at end of input without '}' unless an error is recorded or tolerant mode is on; the prefix dispatcher records an error for a token without entry. The corruption quantifier, the reference-parser filter and error positions are not decided.",
+   ref="DESIGN.md §3 C12",
+   note="Trusted: go/types, go/ssa; acyclic path enumeration (facts at a loop exit do not depend on the loop body in the analysed functions; a back edge ends a path)."),
 }
 na_pending = "rule set designed in DESIGN.md §3 but not yet armed in xjscheck; not claimed until it is silent on the unchanged tree and shown to fire on seeded variants"
 all_ids = ["C%02d" % i for i in range(1, 17)]
